@@ -35,7 +35,9 @@ def load_known() -> list[dict]:
 class Ctx:
     """Per-run context handed to a property module."""
 
-    def __init__(self, prop: str, tier: str, seed: int, model, replay: dict | None = None) -> None:
+    def __init__(self, prop: str, tier: str, seed: int, model, replay: dict | None = None,
+                 shard: tuple[int, int] = (0, 1)) -> None:
+        self.shard = shard
         self.prop = prop
         self.tier = tier
         self.seed = seed
@@ -59,9 +61,10 @@ class Ctx:
 
     def want(self, stream: str, index: int) -> bool:
         """When replaying, only the recorded case is regenerated."""
-        if self.replay is None:
-            return True
-        return self.replay.get('stream') == stream and self.replay.get('index') == index
+        if self.replay is not None:
+            return self.replay.get('stream') == stream and self.replay.get('index') == index
+        k, n = self.shard
+        return index % n == k
 
     # -- bookkeeping ----------------------------------------------------------------------
     def count(self, key: str, n: int = 1) -> None:
@@ -76,6 +79,26 @@ class Ctx:
 
     def disagree(self, stream: str, index: int, what: str, detail: dict) -> None:
         self.disagreements.append({'stream': stream, 'index': index, 'what': what, **detail})
+
+    def dump(self) -> dict:
+        return {'evaluations': self.evaluations, 'nontrivial': sorted(self.nontrivial),
+                'samples': self.samples, 'disagreements': self.disagreements, 'failures': self.failures,
+                'skipped': self.skipped, 'stats': self.stats, 'notes': self.notes}
+
+    def merge(self, d: dict) -> None:
+        self.evaluations += d['evaluations']
+        self.nontrivial |= set(d['nontrivial'])
+        for x in d['samples']:
+            if len(self.samples) < self.max_samples:
+                self.samples.append(x)
+        self.disagreements += d['disagreements']
+        self.failures += d['failures']
+        self.skipped += d['skipped']
+        for k, v in d['stats'].items():
+            self.stats[k] = self.stats.get(k, 0) + v
+        for n in d['notes']:
+            if n not in self.notes:
+                self.notes.append(n)
 
     def fail(self, stream: str, index: int, signature: str, what: str, detail: dict) -> None:
         """The property predicate is false on the real implementation for this case."""
